@@ -94,6 +94,14 @@ def _eval_chunk(recs):
     return out
 
 
+def _warm(_):
+    rec = {"T": [[1, 2, 1], [2, 1, 1], [2, 2, 1]], "names": ["Total<SEP>energy", "Total<SEP>latency", "Total<SEP>x"],
+           "cls": ["obj", "obj", "obj"], "tol": {"on": 0, "od": 1, "rn": 0, "rd": 1, "an": 0, "ad": 1, "rs": 1},
+           "const": {"front": False, "cols": []}}
+    rec3 = dict(rec, T=[[1, 2, 3], [2, 1, 3], [3, 2, 1], [3, 3, 3]])
+    return [_kept(r, p, False) for p in PATHS for r in (rec, rec3)]
+
+
 # ----------------------------------------------------------------------------- comparing
 def _tolkind(tol):
     k = [n for n, f in (("obj", "on"), ("rel", "rn"), ("abs", "an")) if tol[f] != 0]
@@ -139,17 +147,17 @@ def _validate_with_tlc(ck_or_none, cases, workdir, tag):
     return got
 
 
-def _process(ck: Check, recs, label, stats):
-    chunks = [recs[i:i + 500] for i in range(0, len(recs), 500)]
-    with ProcessPoolExecutor(min(NPROC, max(1, len(chunks)))) as ex:
-        results = [r for ch in ex.map(_eval_chunk, chunks) for r in ch]
-    cases = []
-    owners = {}
-    dedupe = {}
+def _process(ck: Check, pool, recs, label, stats, pending):
+    """Replay the generated records into the code; B-compare the zero-tolerance ones and queue
+    what Trace_ParetoTable has to judge in `pending`."""
+    size = 250 if len(recs) > 2000 else max(1, len(recs) // NPROC + 1)
+    chunks = [recs[i:i + size] for i in range(0, len(recs), size)]
+    results = [r for ch in pool.map(_eval_chunk, chunks) for r in ch]
     for k, (rec, res) in enumerate(zip(recs, results)):
         ck.traces += 1
         zero = bool(rec["expect"])
         nontrivial = False
+        mine = {}
         for path in PATHS:
             r = res[path]
             if isinstance(r, str):
@@ -171,42 +179,15 @@ def _process(ck: Check, recs, label, stats):
                 stats["dup_rows_kept"] += len([i for i in dups if i in kept])
                 need_tlc = ok and bool(dups)       # otherwise kept = keptc is already forced
             if need_tlc:
-                key = (k, tuple(kept), tuple(keptc))
-                if key in dedupe:                   # both paths returned the same: one TLC case
-                    owners[dedupe[key]].append(path)
+                key = (tuple(kept), tuple(keptc))
+                if key in mine:                     # both paths returned the same: one TLC case
+                    mine[key]["paths"].append(path)
                     continue
-                cid = len(cases) + 1
-                dedupe[key] = cid
-                owners[cid] = [k, path]
-                cases.append({"id": cid, "T": rec["T"], "cls": rec["cls"], "tol": rec["tol"],
-                              "kept": kept, "keptc": keptc})
+                mine[key] = {"rec": rec, "paths": [path], "label": label, "kept": kept, "keptc": keptc}
+                pending.append(mine[key])
         if nontrivial:
             ck.count_nontrivial((label, json.dumps(rec["T"]), rec["sid"], rec["ti"]))
         stats["by_tol"][_tolkind(rec["tol"])] = stats["by_tol"].get(_tolkind(rec["tol"]), 0) + 1
-    if cases:
-        verdicts = _validate_with_tlc(ck, cases, ck.work, label.replace(".cfg", ""))
-        for case in cases:
-            v = verdicts[case["id"]]
-            k = owners[case["id"]][0]
-            paths = owners[case["id"]][1:]
-            rec = recs[k]
-            stats["tlc_validated"] += 1
-            if not v["tight"]:
-                stats["exceeds_tight_reservation_reading"] += 1
-            replay = {"kind": "tol", "rec": rec, "path": paths[0], "generator": label}
-            if not v["subset"] or not v["covers"]:
-                d = v["uncovered"]
-                ck.violation("C12/tolerance[%s]/dropped-row-not-covered-by-a-kept-row" % _tolkind(rec["tol"]),
-                             "%s on table %s (columns %s) with tolerance %s keeps rows %s; dropped row %d = %s "
-                             "has no kept row with the same fused-loop columns within (1+t) on objectives and "
-                             "the reservation slack (TLC: ParetoTable!Covers is FALSE)"
-                             % (paths, json.dumps(rec["T"]), rec["names"], rec["tol"], case["kept"], d,
-                                rec["T"][d - 1] if d else None), replay)
-            if not v["const_same"]:
-                ck.violation("C12/constant-columns-change-result[%s]" % _tolkind(rec["tol"]),
-                             "%s on table %s (columns %s, tolerance %s) keeps rows %s, but rows %s after adding the "
-                             "constant columns %s" % (paths, json.dumps(rec["T"]), rec["names"], rec["tol"],
-                                                      case["kept"], case["keptc"], rec["const"]["cols"]), replay)
     if recs:
         r = recs[len(recs) // 2]
         res = results[len(recs) // 2]
@@ -215,9 +196,38 @@ def _process(ck: Check, recs, label, stats):
                    "kept_by_implementation": {p: (v if isinstance(v, str) else v[0]) for p, v in res.items()}})
 
 
+def _judge(ck: Check, pending, stats):
+    """One Trace_ParetoTable run over everything recorded; TLC's Covers / const_same are the verdicts."""
+    cases = [{"id": i + 1, "T": p["rec"]["T"], "cls": p["rec"]["cls"], "tol": p["rec"]["tol"],
+              "kept": p["kept"], "keptc": p["keptc"]} for i, p in enumerate(pending)]
+    verdicts = _validate_with_tlc(ck, cases, ck.work, "all")
+    for case, p in zip(cases, pending):
+        v = verdicts[case["id"]]
+        rec, paths = p["rec"], p["paths"]
+        stats["tlc_validated"] += 1
+        if not v["tight"]:
+            stats["exceeds_tight_reservation_reading"] += 1
+        replay = {"kind": "tol", "rec": rec, "path": paths[0], "generator": p["label"]}
+        if not v["subset"] or not v["covers"]:
+            d = v["uncovered"]
+            ck.violation("C12/tolerance[%s]/dropped-row-not-covered-by-a-kept-row" % _tolkind(rec["tol"]),
+                         "%s on table %s (columns %s) with tolerance %s keeps rows %s; dropped row %d = %s "
+                         "has no kept row with the same fused-loop columns within (1+t) on objectives and "
+                         "the reservation slack (TLC: ParetoTable!Covers is FALSE)"
+                         % (paths, json.dumps(rec["T"]), rec["names"], rec["tol"], case["kept"], d,
+                            rec["T"][d - 1] if d else None), replay)
+        if not v["const_same"]:
+            ck.violation("C12/constant-columns-change-result[%s]" % _tolkind(rec["tol"]),
+                         "%s on table %s (columns %s, tolerance %s) keeps rows %s, but rows %s after adding the "
+                         "constant columns %s" % (paths, json.dumps(rec["T"]), rec["names"], rec["tol"],
+                                                  case["kept"], case["keptc"], rec["const"]["cols"]), replay)
+
+
 def run(ck: Check):
+    import multiprocessing
+    import time
     thorough = ck.tier == "thorough"
-    ck.rule = ("tables are enumerated (exh configs: every table with R rows over the stated alphabet) or drawn "
+    ck.rule = ("tables are enumerated (exh config: every table of every family of ExhQuick / ExhThorough) or drawn "
                "(rand configs, -simulate with the seed) by TLC from spec/MC_ParetoTable.tla with column names of "
                "the real naming convention, one tolerance triple of TolGrid and constant columns to add; zero "
                "tolerance: kept rows compared with ParetoTable!ExpectVec; every tolerance: TLC evaluates "
@@ -228,35 +238,46 @@ def run(ck: Check):
                    "the absolute tolerance divided by the power of two tol.rs, float(n/d) for tolerances)"]
     ck.assumptions += ["decimal tolerances (1/10, 1/100) reach the code as the nearest double; on integer tables "
                        "below 2^12 the bound k*td <= (td+tn)*d has the same truth value for both"]
-    q = "" if thorough else "_q"
-    plan = [("MC_ParetoTable_exh2%s.cfg" % q, None), ("MC_ParetoTable_exh3%s.cfg" % q, None),
-            ("MC_ParetoTable_exh3t%s.cfg" % q, None)]
-    if thorough:
-        plan += [("MC_ParetoTable_exh4.cfg", None), ("MC_ParetoTable_exh43.cfg", None)]
+    plan = [("MC_ParetoTable_exh_%s.cfg" % ("t" if thorough else "q"), None, None)]
     for i in range(4 if thorough else 1):
         s = ck.seed * 100 + i
-        plan += [("MC_ParetoTable_rand_small.cfg", s), ("MC_ParetoTable_rand_near.cfg", s),
-                 ("MC_ParetoTable_rand_big.cfg", s)]
+        plan += [("MC_ParetoTable_rand.cfg", s, 1500 if thorough else 600),
+                 ("MC_ParetoTable_rand_big.cfg", s, 40 if thorough else 15)]
     stats = {"dup_rows": 0, "dup_rows_kept": 0, "tlc_validated": 0,
              "exceeds_tight_reservation_reading": 0, "by_tol": {}}
-    for cfg, seed in plan:
-        kw = {"workers": 8}
-        if seed is not None:
-            kw = {"seed": seed, "workers": 1, "simulate": "num=1", "depth": 5000}
-        res = ck.tlc("MC_ParetoTable", cfg, timeout=3000, coverage=False, **kw)
-        if not res.ok:
-            raise Machinery("generator %s failed: %s\n%s" % (cfg, res.violated, res.tail))
-        if not res.records:
-            raise Machinery("generator %s printed no cases" % cfg)
-        _process(ck, res.records, cfg, stats)
+    timings = {}
+    t0 = time.time()
+    _warm(0)             # import accelforge and JIT-compile once; the forked workers inherit the compiled code
+    timings["warmup"] = round(time.time() - t0, 1)
+    pending = []
+    with ProcessPoolExecutor(NPROC, mp_context=multiprocessing.get_context("fork")) as pool:
+        for cfg, seed, depth in plan:
+            t0 = time.time()
+            kw = {"workers": 8}
+            if seed is not None:
+                kw = {"seed": seed, "workers": 1, "simulate": "num=1", "depth": depth}
+            res = ck.tlc("MC_ParetoTable", cfg, timeout=3000, coverage=False, **kw)
+            if not res.ok:
+                raise Machinery("generator %s failed: %s\n%s" % (cfg, res.violated, res.tail))
+            if not res.records:
+                raise Machinery("generator %s printed no cases" % cfg)
+            t1 = time.time()
+            _process(ck, pool, res.records, cfg, stats, pending)
+            timings[cfg + ("" if seed is None else "@%d" % seed)] = {
+                "records": len(res.records), "tlc_generate_s": round(t1 - t0, 1),
+                "replay_s": round(time.time() - t1, 1)}
+    if not pending:
+        raise Machinery("no case reached Trace_ParetoTable")
+    t0 = time.time()
+    _judge(ck, pending, stats)
+    timings["Trace_ParetoTable"] = {"cases": len(pending), "s": round(time.time() - t0, 1)}
+    ck.extra["timings"] = timings
     ck.exhaustive = False
     ck.extra["exhaustive_parts"] = [p[0] for p in plan if p[1] is None]
     ck.extra["c12_stats"] = stats
     ck.extra["non_decisive"] = ("rows equal to an earlier non-dominated row on all compared columns ('dup') may be "
                                 "kept or dropped; the tighter reservation reading max((1+r)d, d+a) is only counted "
                                 "(exceeds_tight_reservation_reading)")
-    if stats["tlc_validated"] == 0:
-        raise Machinery("no case reached Trace_ParetoTable")
 
 
 def replay(path):
